@@ -28,6 +28,9 @@ type ReloadPlan struct {
 	DelayAfter  time.Duration // fake-time sleep after the inner Reload returned
 	Fail        bool          // return an injected error instead of calling the inner Reload
 	FailLow     bool          // let the inner Reload run and fail its low-level catch-up call (RocksDB back ends with a Low wrapper)
+	// SlowLow: the low-level catch-up call itself takes that much fake time (a slow disk): the reload is
+	// genuinely in flight inside RDB.CatchWithPrimary, with the iterator pool drained, for that long
+	SlowLow time.Duration
 }
 
 // ErrInjected is the error of an injected fault.
@@ -320,6 +323,9 @@ func (b *Backend) Reload(path string) (db.DBI, error) {
 		}
 		lowFired := false
 		task := b.m.y.TaskName()
+		if p.SlowLow > 0 && isCatchUp && b.Low != nil {
+			b.Low.setSlow(task, p.SlowLow)
+		}
 		if p.FailLow && isCatchUp && b.Low != nil {
 			b.Low.arm(task)
 			nd, err = b.inner.Reload(path)
